@@ -962,9 +962,14 @@ func (e *Exec) appendSlice(s SliceV, more Value, st types.Type) Value {
 		}
 		return SliceV{Arr: s.Arr, Off: s.Off, Len: need, Cap: s.Cap}
 	}
-	// reallocate; capacity policy: exact or exact+slack (nondeterministic when enabled)
+	// reallocate; capacity policy: like the Go runtime for small slices (double the old capacity unless more is
+	// needed; size-class rounding is not modelled), or nondeterministic {needed, needed+1} where a harness asks for it
 	ncap := need
+	if s.Cap > 0 && 2*s.Cap >= need {
+		ncap = 2 * s.Cap
+	}
 	if e.nondetCap || e.capMarked() {
+		ncap = need
 		if e.choose(2, "cap") == 1 {
 			ncap = need + 1
 		}
